@@ -38,6 +38,8 @@ SCEN = {
     # 3 compartments in branches of 1 and 2: branch-level trainables are groups of unequal size (padded indices)
     "cell_unequal": ("cell_small", [("branches", "radius"), ("branches", "length"), ("all", "Leak_gLeak"), ("b01", "capacitance")], 1),
     "cell_unequal_axial": ("cell_small", [("branches", "axial_resistivity"), ("b1", "Leak_eLeak")], 1),
+    # a channel whose dynamics read a stored membrane current (i_Ca), and a loss on recorded currents
+    "comp_pump": ("comp_pump", [("all", "CaL_gCaL"), ("all", "radius"), ("all", "v")], 2),
     "net_tanh": ("net2_tanh", [("syn", "TanhRateSynapse_gS"), ("syn", "TanhRateSynapse_slope"), ("cell0", "radius")], 1),
 }
 
@@ -67,7 +69,12 @@ def build(inst):
         m.select(nodes=[i]).set("radius", 1.0 + 0.25 * i)
         m.select(nodes=[i]).set("length", 10.0 + 2.0 * i)
     m.select(nodes=[n - 1]).record("v", verbose=False)
-    m.select(nodes=[0]).record("v", verbose=False)
+    # the loss is "any differentiable loss of the recordings": also a recorded membrane current / concentration
+    second = "v"
+    if name == "comp_hh": second = "i_HH"
+    elif name == "comp_pump": second = "CaCon_i"
+    elif name == "branch2_hh": second = "i_HH"
+    m.select(nodes=[0]).record(second, verbose=False)
     make_trainables(m, name)
     steps = SCEN[name][2]
     kw = dict(solver=inst["solver"], voltage_solver=inst["voltage_solver"], delta_t=0.025)
@@ -76,8 +83,9 @@ def build(inst):
         cur = amp * jnp.ones((1, steps))
         ds = m.select(nodes=[0]).data_stimulate(cur, None)
         ps = m.select(nodes=[n - 1]).data_set("Leak_eLeak" if "Leak_eLeak" in m.nodes.columns else "HH_eLeak", setval, None)
+        scale2 = {"i_HH": 1.0e3, "CaCon_i": 1.0e4}.get(second, 0.5)
         out = jx.integrate(m, params=params, param_state=ps, data_stimuli=ds, checkpoint_lengths=ckpt, **kw)
-        w = jnp.asarray([[1.0], [0.5]]) * jnp.arange(1, steps + 2)[None, :]
+        w = jnp.asarray([[1.0], [scale2]]) * jnp.arange(1, steps + 2)[None, :]
         return jnp.sum(out * w)
     return m, loss, steps
 
@@ -254,6 +262,8 @@ def families():
                 continue
             ck = [[steps], [2, 2]] if quick else [[steps], [steps + 1], [2, 2], [1, steps], [steps, 1], [2, 2, 2]]
             ck = [c for c in ck if int(np.prod(c)) >= steps]
+            if quick and sc == "comp_pump" and solver == "crank_nicolson":
+                continue
             insts.append({"scenario": sc, "solver": solver, "voltage_solver": vs, "ckpts": ck, "definedness": sc in ("comp_hh", "branch2_hh") and solver == "bwd_euler"})
     return insts
 
